@@ -69,6 +69,11 @@ def _region(byte_index: int) -> str:
     return "tag"
 
 
+def _phase(where: str) -> str:
+    """'step3:resume' -> 'step' (stable site text: which kind of phase, not which step number)."""
+    return "".join(c for c in where.split(":")[0] if not c.isdigit()).split("@")[0]
+
+
 class Sess:
     def __init__(self, k: int, worker: int, epoch: int, ident: str | None, token: str, label: str, expires: float) -> None:
         self.k = k
@@ -143,7 +148,7 @@ def run(ctx: RunCtx) -> None:
                 ch.probe("accept")
                 good = (entered and not o.error_header and o.obs is not None and o.obs[0] == ["entry", s.label, False])
                 if not good:
-                    ctx.violation(PROPERTY, "owner-refused", where.split(":")[0], "the rightful presentation was not dispatched with its "
+                    ctx.violation(PROPERTY, "owner-refused", _phase(where), "the rightful presentation was not dispatched with its "
                                   "own live session: " + desc)
                     return False
                 return True
@@ -179,11 +184,11 @@ def run(ctx: RunCtx) -> None:
             if cause == "ok":
                 assert s is not None
                 if st != 204:
-                    ctx.violation(PROPERTY, "delete-owner-not-204", where.split(":")[0], "DELETE of a live, owned session: " + desc)
+                    ctx.violation(PROPERTY, "delete-owner-not-204", _phase(where), "DELETE of a live, owned session: " + desc)
                     return False
                 ch.probe("delete-204")
                 if world.states[s.label].close_calls != 1:
-                    ctx.violation(PROPERTY, "delete-204-no-close", where.split(":")[0],
+                    ctx.violation(PROPERTY, "delete-204-no-close", _phase(where),
                                   f"204 but the close hook ran {world.states[s.label].close_calls} times: " + desc)
                     return False
                 s.ended = "deleted"
